@@ -55,7 +55,7 @@ def tagged_pkg(draw, min_res=1, max_res=5, names=None, allow_big=True):
         if i == big_at:
             k = draw(st.integers(1001, 1100))
             proto = draw(gen.rows_for(flds[1:], 3, 3))
-            rows = [dict(proto[j % 3]) for j in range(k)]
+            rows = [copy.deepcopy(proto[j % 3]) for j in range(k)]   # no nested value shared between rows
         else:
             k = draw(st.sampled_from([0, 0, 1, 2, 3, 5]))
             rows = draw(gen.rows_for(flds[1:], k, k))
@@ -129,7 +129,10 @@ def duplicate_case(draw):
     return {'op': 'duplicate', 'pkg': pkg, 'source': src,
             'target_name': draw(st.sampled_from([None, 'the_copy'])),
             'target_path': draw(st.sampled_from([None, 'x/copy.csv'])),
-            'to_end': draw(st.booleans()), 'batch': draw(st.sampled_from([1, 2, 1000, None]))}
+            'to_end': draw(st.booleans()), 'batch': draw(st.sampled_from([1, 2, 1000, None])),
+            # a later step of the same flow that edits rows in place (top-level and nested values): the copy is
+            # 'an exact copy of the chosen resource' as of the duplicate step, so it receives the edit exactly once
+            'follow': draw(st.sampled_from([None, None, 'inplace']))}
 
 
 @st.composite
@@ -201,6 +204,21 @@ class Reject(Exception):
     pass
 
 
+def inplace_edit(row):
+    """User row step: edits top-level and nested values in place (returns None)."""
+    for k, v in list(row.items()):
+        if k == '_tag':
+            continue
+        if isinstance(v, list):
+            v.append('!')
+        elif isinstance(v, dict):
+            v['!'] = 1
+        elif isinstance(v, str):
+            row[k] = v + '!'
+        elif isinstance(v, int) and not isinstance(v, bool):
+            row[k] = v + 1
+
+
 def model_concat(case):
     pkg = case['pkg']
     names = [r['name'] for r in pkg]
@@ -264,6 +282,13 @@ def check(case, ctx):
             exp_rows = tables[:si + 1] + [tables[si]] + tables[si + 1:]
         affected = [si]
         classes.append('dup:end' if case['to_end'] else 'dup:after')
+        if case.get('follow'):
+            steps.append(inplace_edit)
+            exp_rows = [copy.deepcopy(t) for t in exp_rows]   # (one deepcopy call would keep the copy aliased)
+            for t in exp_rows:
+                for r in t:
+                    inplace_edit(r)
+            classes.append('dup:followed-by-in-place-edit')
     elif op == 'delete':
         idxs = select(case['sel'], names)
         steps = [dataflows.delete_resource(copy.deepcopy(case['sel']))]
